@@ -814,6 +814,8 @@ func handle(r *req) resp {
 		return opSeq(r)
 	case "conc":
 		return opConc(r.Args)
+	case "alone":
+		return opAlone(r.Args)
 	case "ping":
 		return resp{"r": "ok"}
 	}
